@@ -996,3 +996,138 @@ func ruleOnDiskCursors(e *Engine, r *Report) {
 	}
 	r.floor(rule, n, 4)
 }
+
+// ruleLogReaderNoCache (C19, C09): the LogReader is a window over the log
+// store, not a copy of it: an entry (or anything derived from one) read from
+// the store is never kept in a field of the reader - the store is the single
+// source of truth once a conflicting append overwrites a suffix - and the
+// term it reports for an index is the window's marker term (only for the
+// marker index) or comes from the entry just read from the store.
+func ruleLogReaderNoCache(e *Engine, r *Report) {
+	rule := "DEP-logreader-no-cache"
+	lrT := e.Named("internal/logdb", "LogReader")
+	iter := r.needMethod("raftio", "ILogDB", "IterateEntries")
+	term := r.need("(*internal/logdb.LogReader).termLocked")
+	markerTerm := r.needField("internal/logdb", "LogReader", "markerTerm")
+	markerIndex := r.needField("internal/logdb", "LogReader", "markerIndex")
+	if lrT == nil || iter == nil || term == nil || markerTerm == nil || markerIndex == nil {
+		return
+	}
+	st, _ := lrT.Underlying().(*types.Struct)
+	isLRField := map[*types.Var]bool{}
+	for i := 0; st != nil && i < st.NumFields(); i++ {
+		isLRField[st.Field(i)] = true
+	}
+	// functions of package logdb whose result carries entries read from the store
+	fromStore := func(x ssa.Value) bool {
+		c, ok := x.(*ssa.Call)
+		if !ok {
+			return false
+		}
+		if e.IsMethodCall(c, iter) {
+			return true
+		}
+		sc := c.Call.StaticCallee()
+		if sc == nil || sc.Signature.Recv() == nil || !isPtrToNamed(sc.Signature.Recv().Type(), lrT) {
+			return false
+		}
+		// a LogReader method that (transitively, depth 2) returns what IterateEntries produced
+		return e.returnDependsOn(sc, func(y ssa.Value) bool {
+			cy, ok := y.(*ssa.Call)
+			return ok && e.IsMethodCall(cy, iter)
+		}, 2)
+	}
+	n := 0
+	for _, fn := range e.ScopeFuncs() {
+		rv := fn.Signature.Recv()
+		if rv == nil || !isPtrToNamed(rv.Type(), lrT) || !e.IsLive(outermostFn(fn)) {
+			continue
+		}
+		forEachInstr(fn, func(in ssa.Instruction) {
+			s, ok := in.(*ssa.Store)
+			if !ok {
+				return
+			}
+			f, _, ok := fieldOfAddr(s.Addr)
+			if !ok || !isLRField[f] {
+				return
+			}
+			n++
+			if f == markerTerm {
+				// the window's marker: Compact records the term of the compaction point, which is
+				// at or below the applied index - a committed entry is never overwritten (C02)
+				r.ok(rule, "LogReader."+f.Name()+" written in "+fname(fn)+" (window marker)", e.ipos(in), "exception: term of the committed compaction point / of the snapshot")
+				return
+			}
+			r.check(!e.dependsOn(s.Val, fromStore, 0), rule, "LogReader."+f.Name()+" written in "+fname(fn)+" holds nothing read from the store", e.ipos(in),
+				"the stored value does not derive from entries returned by the log store", "a field of the LogReader is set from entries read from the log store: the reader keeps a copy that a later conflicting append (which rewrites the store) does not update, so it answers with the overwritten entry")
+		})
+	}
+	r.floor(rule, n, 8)
+	// term source
+	k := 0
+	forEachInstr(term, func(in ssa.Instruction) {
+		ret, ok := in.(*ssa.Return)
+		if !ok || len(ret.Results) < 1 {
+			return
+		}
+		v := stripConv(retOperand(ret, 0))
+		if _, isC := v.(*ssa.Const); isC {
+			return
+		}
+		k++
+		switch {
+		case e.dependsOn(v, fromStore, 0):
+			r.ok(rule, "termLocked answers from the entry read from the store", e.ipos(in), "term of the entry returned by the store")
+		case e.dependsOn(v, func(x ssa.Value) bool { return fieldV(markerTerm)(x) }, 0):
+			r.guard(rule, "termLocked answers the marker term", in, reqCmp("the index asked for is the marker index", "==", func(x ssa.Value) bool { _, ok := stripConv(x).(*ssa.Parameter); return ok }, fieldV(markerIndex)))
+		default:
+			r.bad(rule, "termLocked answers from the window or the store", e.ipos(in), "termLocked returns a term ("+e.describeValue(v)+") that is neither the marker term nor taken from an entry just read from the store")
+		}
+	})
+	r.floor(rule+" (term)", k, 2)
+}
+
+// ruleChunkLocksStable (C15): the per-stream lock table of the chunk receiver
+// gives mutual exclusion only if a key keeps its lock object: an entry is
+// inserted once (on the not-found edge of the lookup, under the table mutex)
+// and never deleted or replaced - a chunk that fetched the lock before a
+// delete and one that arrives after it would hold different objects and run
+// addLocked for the same stream concurrently.
+func ruleChunkLocksStable(e *Engine, r *Report) {
+	rule := "WMW-chunk-locks-stable"
+	locks := r.needField("internal/transport", "Chunk", "locks")
+	mu := r.needField("internal/transport", "Chunk", "mu")
+	if locks == nil || mu == nil {
+		return
+	}
+	n := 0
+	for _, w := range e.FieldWrites(locks) {
+		switch w.Kind {
+		case "init", "store":
+			// construction
+			if mk, ok := stripConv(w.Val).(*ssa.MakeMap); ok && mk != nil && w.Kind == "init" {
+				continue
+			}
+			r.bad(rule, "Chunk.locks replaced in "+fname(w.Fn), e.ipos(w.Instr), "the lock table is replaced after construction: every lock object handed out before is orphaned")
+		case "mapdelete":
+			n++
+			r.bad(rule, "Chunk.locks entry deleted in "+fname(w.Fn), e.ipos(w.Instr), "a per-stream lock is deleted: the next chunk of that key gets a new lock object while an earlier chunk may still hold the old one, so two chunks of one stream are processed concurrently")
+		case "mapupdate":
+			n++
+			c := "Chunk.locks entry inserted in " + fname(w.Fn)
+			// under the not-found edge of a lookup of the same map
+			found := func(v ssa.Value) bool {
+				ex, ok := stripConv(v).(*ssa.Extract)
+				if !ok || ex.Index != 1 {
+					return false
+				}
+				lk, ok := ex.Tuple.(*ssa.Lookup)
+				return ok && lk.CommaOk && fieldV(locks)(lk.X)
+			}
+			r.guard(rule, c, w.Instr, reqBool("the key has no lock yet (comma-ok lookup false)", found, false))
+			r.requireLock(rule, c+" under the table mutex", w.Instr, mu, 2, "lookup and insert must be one critical section")
+		}
+	}
+	r.floor(rule, n, 1)
+}
